@@ -165,3 +165,19 @@ package filesystem
 //@   noframe
 //@   ensures @C18 err == nil ==> called("gopki/generator/db.IsConsistent", 1) && callres("gopki/generator/db.IsConsistent", 1, 0) && callres("gopki/generator/db/filesystem.importFiles", 1, 0) == nil
 
+// nativefs.WriteFile (C10): an absolute name is refused without touching the disk; otherwise exactly one file is
+// written, the one at base directory + separator + name, with exactly the given content.
+//@ func (nativefs).WriteFile returns (err)
+//@   props C10 C20
+//@   atcall @C10 os.WriteFile !callres("path/filepath.IsAbs", 1, 0) && name == concat(concat(n.basepath, "/"), #p_name) && data == content
+//@   ensures @C10 callres("path/filepath.IsAbs", 1, 0) ==> err != nil && !called("os.WriteFile", 1)
+//@   ensures @C10 !callres("path/filepath.IsAbs", 1, 0) ==> called("os.WriteFile", 1) && !called("os.WriteFile", 2) && err == callres("os.WriteFile", 1, 0)
+
+// NewFilesystemDatabase establishes the data-structure invariant MAPS every method requires.
+//@ func NewFilesystemDatabase returns (res)
+//@   props C18 C20
+//@   let F = typed(unboxRef(res), "*gopki/generator/db/filesystem.FsDb")
+//@   ensures res != nil
+//@   ensures @C18,C20 typeis(res, "*gopki/generator/db/filesystem.FsDb") && F != nil && fresh(F) && F.configs != nil && F.artifacts != nil && F.fsMetadata != nil && F.profiles != nil && F.subscribersOf != nil
+//@   ensures @C18,C20 F.configs != F.artifacts && F.configs != F.fsMetadata && F.artifacts != F.fsMetadata && F.profiles != F.configs && F.profiles != F.artifacts && F.profiles != F.fsMetadata && F.subscribersOf != F.configs && F.subscribersOf != F.artifacts && F.subscribersOf != F.fsMetadata && F.subscribersOf != F.profiles
+//@   ensures @C18 len(F.rootAliases) == 0 && maplen(F.configs) == 0 && maplen(F.subscribersOf) == 0
